@@ -539,8 +539,8 @@ func c04(c *core.Ctx) {
 					// a terminal error is parked in the same block
 					for _, in := range ss.st.Block().Instrs {
 						if ps, isS := in.(*ssa.Store); isS && !core.IsNilConst(ps.Val) {
-							if pt, isP := ps.Val.Type().Underlying().(*types.Pointer); isP && core.NamedOf(pt.Elem()) == "frame" {
-								okEnd = true
+							if _, isFld := ps.Addr.(*ssa.FieldAddr); isFld && core.NamedOf(ps.Val.Type()) == "frame" {
+								okEnd = true // a frame (pointer or value) stored into a field of the stream: the peek slot
 							}
 						}
 					}
